@@ -704,7 +704,7 @@ static void long_hold(long caseno) {
     lh_snapshot(&LHC, &w1);
     long busy0 = vf_trylock_busy, spins = 0;
     pthread_t t; pthread_create(&t, NULL, lh_writer, NULL);
-    while (vf_trylock_busy - busy0 < 12000 && !LH_done && spins++ < 400000000L) sched_yield();
+    while (vf_trylock_busy - busy0 < 12000 && !LH_done && spins++ < 30000000L) sched_yield();   /* a library that blocks instead of polling never gets there: counted, not judged */
     bool reached = vf_trylock_busy - busy0 >= 12000;
     int early = __atomic_load_n(&LH_done, __ATOMIC_SEQ_CST);
     lh_snapshot(&LHC, &w2);
